@@ -622,6 +622,36 @@ def unit_settings(ctx):
                 return
 
 
+def unit_long_axis(ctx):
+    """axes far longer than anything above (1300 and 70000 cells): whatever the library does in blocks or chunks, the
+    running sum, the directional integral and the mean are still the sums the statement names"""
+    n = ctx.choose("n", [(1300,), (1300, 2), (2, 1300), (3, 2, 1300), (70000,)])
+    nvdim = ctx.choose("nvdim", [1, 2])
+    dt = ctx.choose("dtype", ["float", "int"])
+    ndim = len(n)
+    cell = [0.5, 2.0, 0.25][:ndim]
+    pmin = [0.25, -1.0, 3.0][:ndim]
+    mesh = df.Mesh(region=df.Region(p1=pmin, p2=[a + c * k for a, c, k in zip(pmin, cell, n)]), n=n)
+    idx = np.arange(int(np.prod(n))).reshape(n)
+    vals = np.stack([((7 * idx + 3 * c) % 11 - 5).astype(float) for c in range(nvdim)], axis=-1)  # small integers: exact sums
+    f = df.Field(mesh, nvdim=nvdim, value=vals if dt == "float" else vals.astype(int), dtype=float if dt == "float" else int)
+    inst = ctx.key()
+    for name, (call, ex, mag) in _ops_expected(vals, mesh).items():
+        ctx.step(1, name)
+        raised, r = C.raises(call, f)
+        ctx.check(2)
+        if raised:
+            ctx.fail("long-axis/operation-raises", f"{name} on n={n}: {type(r).__name__}: {str(r)[:150]}", instance=inst)
+            return
+        got = _raw(r, nvdim)
+        ex = np.asarray(ex)
+        if got.size != ex.size or C.gt(np.abs(got.reshape(ex.shape) - ex), 16 * REL * np.asarray(mag) + 5e-324):
+            bad = np.argwhere(~(np.abs(got.reshape(ex.shape) - ex) <= 16 * REL * np.asarray(mag) + 5e-324)) if got.size == ex.size else []
+            ctx.fail("long-axis/number-wrong", f"{name} on n={n}: first wrong entry at {bad[0].tolist() if len(bad) else '?'}", instance=inst)
+            return
+    ctx.observe(n, nvdim)
+
+
 def units(tier):
     return [
         {"name": "total", "fn": unit_total, "bound": None},
@@ -629,6 +659,7 @@ def units(tier):
         {"name": "fubini", "fn": unit_fubini, "bound": None},
         {"name": "mean_sets", "fn": unit_mean_sets, "bound": None},
         {"name": "translation", "fn": unit_translation, "bound": None},
+        {"name": "long_axis", "fn": unit_long_axis, "bound": None},
         {"name": "reuse", "fn": unit_reuse, "bound": None},
         {"name": "settings", "fn": unit_settings, "bound": None},
     ]
